@@ -53,12 +53,26 @@ ZAddSettled(z, t, sp) ==
   ~SpanHasCalendar(sp) \/ LET c2 == ZAddCivil(z, t, sp) IN c2 = <<>> \/ Settled(z, c2)
 
 \* ---- start of day: the first instant whose civil date is the day ---------------------
+\* the next instant at which the *offset* changes (a recorded transition may change the DST flag or the
+\* abbreviation only)
+RECURSIVE NextOffChange(_, _)
+NextOffChange(z, t) ==
+  LET T == NextChangeAfter(z, t) IN
+  IF T = <<>> THEN <<>> ELSE IF OffAt(z, T) # OffAt(z, AddNs(T, -1)) THEN T ELSE NextOffChange(z, T)
 StartOfDayC(z, day) ==
   LET c0 == <<day, 0, 0>>  cl == Classify(z, c0) IN
   IF cl[1] = "g"
   THEN \* midnight does not exist: the day starts at the transition that skips it
-       NextChangeAfter(z, InstOfCivil(c0, cl[3]))
+       NextOffChange(z, InstOfCivil(c0, cl[3]))
   ELSE InstOfCivil(c0, cl[2])          \* unambiguous, or the earlier of a fold
+\* settled: midnight has at most two pre-images and at most one change of offset lies within a day of it
+\* (the wording "first instant whose civil date is that day" is then decided by that one transition)
+StartSettled(z, day) ==
+  LET c0 == <<day, 0, 0>>  cl == Classify(z, c0)
+      lo == <<day - 2, 0, 0>>  hi == <<day + 2, 0, 0>>
+      T == NextOffChange(z, lo)
+  IN /\ cl[1] # "m"
+     /\ (T = <<>> \/ TLt(hi, T) \/ LET T2 == NextOffChange(z, T) IN T2 = <<>> \/ TLt(hi, T2))
 StartOfDay(z, t) ==
   LET r == StartOfDayC(z, CivilAt(z, t)[1]) IN
   IF r # <<>> /\ InTsRange(r) THEN r ELSE <<>>
